@@ -15,7 +15,9 @@ import (
 	"crypto/sha256"
 	"encoding/hex"
 	"encoding/json"
+	"errors"
 	"fmt"
+	"io"
 	"os"
 	"path/filepath"
 	"sort"
@@ -24,6 +26,7 @@ import (
 	"testing"
 
 	"github.com/conduitio/conduit/pkg/foundation/cerrors/conduiterr"
+	gojson "github.com/goccy/go-json"
 	"pgregory.net/rapid"
 	"verifharness/pbt"
 )
@@ -93,6 +96,52 @@ const (
 	kCrTempLeft  = "C19/crash/doc/temp-file-left-after-returned-error"
 	kCrEntryNoAr = "C19/crash/manifest-entry-without-artifact"
 )
+
+// kUncodedIndexSyntax is the sub-shape of the "refusal is a coded error" clauses
+// found on the real code: index.CheckNoDuplicateKeys returns the JSON decoder's
+// raw error for syntactically invalid index JSON, so Install / VerifyIndex /
+// InstallFromBundle refuse a damaged index with an uncoded error (verify.go
+// documents CodeIndexIntegrity, "index envelope is not valid JSON").
+const kUncodedIndexSyntax = "C19/refusal-not-coded/index.CheckNoDuplicateKeys/json-syntax-error"
+
+func isJSONSyntaxErr(err error) bool {
+	if err == nil {
+		return false
+	}
+	var se *gojson.SyntaxError
+	if errors.As(err, &se) || errors.Is(err, io.ErrUnexpectedEOF) || errors.Is(err, io.EOF) {
+		return true
+	}
+	msg := err.Error()
+	return strings.HasPrefix(msg, "json: ") || strings.Contains(msg, "unexpected end of JSON") || strings.Contains(msg, "invalid character")
+}
+
+// uncodedKey picks the key of an uncoded refusal: the known JSON-syntax shape or the generic clause.
+func uncodedKey(generic string, err error) string {
+	if isJSONSyntaxErr(err) {
+		return kUncodedIndexSyntax
+	}
+	return generic
+}
+
+// damageJSON renders the two syntactic damages of an index document.
+func damageJSON(raw []byte, mode string) []byte {
+	switch mode {
+	case "json-truncated":
+		return append([]byte{}, raw[:len(raw)/2]...)
+	case "json-garbage":
+		out := append([]byte{}, raw...)
+		// replace a structural character in the middle by a letter
+		for i := len(out) / 2; i < len(out); i++ {
+			if out[i] == ':' || out[i] == ',' || out[i] == '{' || out[i] == '[' {
+				out[i] = 'a'
+				break
+			}
+		}
+		return out
+	}
+	return raw
+}
 
 // ---- per-case scratch directories -------------------------------------------
 
